@@ -67,7 +67,7 @@ def _same_any(ctx, rule, instance, fi, got, wants, what):
     return same(ctx, rule, instance, fi, got, wants[-1], what)
 
 
-def _nonraising(ex):
+def _nonraising(ex, mark_raises=False):
     """[(guard, value key)] of the normally-returning alternatives of a function's result (raising paths
     are dropped, so exception texts never enter a comparison; the last alternative is made unconditional)."""
     res = ex.result
@@ -77,6 +77,10 @@ def _nonraising(ex):
         for g, v in a[1]:
             va = key_atom(v)
             if va is not None and va[0] == "raise":
+                # where the function raises there is no returned value to compare: one marker on both sides (which
+                # exception, under which test, is E3's last instance / L4's business)
+                if mark_raises:
+                    alts.append((g, ("const", "'<raises>'")))
                 continue
             alts.append((g, v))
     else:
@@ -101,11 +105,12 @@ def _returned(ex):
 
 def _returned_components(ex, n):
     """The n components of the tuple returned on the non-raising paths, each as one guarded term."""
-    alts = _nonraising(ex)
+    alts = _nonraising(ex, mark_raises=True)
+    marker = ("const", "'<raises>'")
     for g, v in alts:
-        if not (isinstance(v, tuple) and v and v[0] == "tuple" and len(v) == n + 1):
+        if v != marker and not (isinstance(v, tuple) and v and v[0] == "tuple" and len(v) == n + 1):
             raise AnalysisError("%s: a returning path does not return a %d-tuple (unrecognised shape)" % (ex.fi.qualname, n))
-    return [_as_value([(g, v[1 + i]) for g, v in alts]) for i in range(n)]
+    return [_as_value([(g, v if v == marker else v[1 + i]) for g, v in alts]) for i in range(n)]
 
 
 def _subs_of(ex, basekey):
@@ -338,6 +343,10 @@ def rule_E3(ctx):
             raise AnalysisError("get_major_cn_prior: %d min(...) computations, specification has %d (unrecognised shape)" % (len(ev_g), len(ev_w)))
         ctx.fail("E3", "get_major_cn_prior: rows are added under the specified conditions (extra row iff (normal, total, total) not yet present)", f.where(),
                  "%d clamped-VAF computations min(1 - eps, .), the specification has %d (one per genotype row)" % (len(ev_g), len(ev_w)), construct=f.qualname, stmt="row guards")
+    elif okv:
+        # the three returned tables agree with the specification in every scenario, rows present or absent included: where
+        # the candidate row's VAF is *computed* (before or under the membership test) does not matter
+        ctx.ok("E3", "get_major_cn_prior: rows are added under the specified conditions (extra row iff (normal, total, total) not yet present)", f.where(), "decided by the comparison of the returned tables")
     else:
         bad = None
         for i, (g, w) in enumerate(zip(ev_g, ev_w)):
@@ -347,11 +356,15 @@ def rule_E3(ctx):
         ctx.check(bad is None, "E3", "get_major_cn_prior: rows are added under the specified conditions (extra row iff (normal, total, total) not yet present)", f.where(), bad or "", construct=f.qualname, stmt="row guards")
     # lock step: on every returning path cn, mu and log_pi receive the same number of rows
     names = sorted({c.func.value.id for c in calls(f.node, last="append") if isinstance(c.func, ast.Attribute) and isinstance(c.func.value, ast.Name)})
-    if len(names) < 3:
+    if len(names) < 3 and okv:
+        # the tables are not grown by three parallel appends (rows carried as records, say): equal lengths in every
+        # scenario follow from the comparison of the three returned tables with the specification's
+        ctx.ok("E3", "get_major_cn_prior: cn / mu / log_pi have one entry per genotype row", f.where(), "decided by the comparison of the returned tables")
+    elif len(names) < 3:
         raise AnalysisError("get_major_cn_prior: fewer than three lists are grown with .append (unrecognised shape)")
     bad = None
     npaths = 0
-    for steps, oc in enumerate_paths(f.node.body):
+    for steps, oc in (enumerate_paths(f.node.body) if len(names) >= 3 else []):
         if oc != "return":
             continue
         npaths += 1
@@ -364,9 +377,10 @@ def rule_E3(ctx):
                     cnt[c.func.value.id] += 1
         if len(set(cnt.values())) != 1 and bad is None:
             bad = "on a path the lists receive different numbers of rows: %s" % cnt
-    if npaths == 0:
+    if npaths == 0 and len(names) >= 3:
         raise AnalysisError("get_major_cn_prior: no returning path")
-    ctx.check(bad is None, "E3", "get_major_cn_prior: %s grow in lock step on all %d returning paths" % ("/".join(names), npaths), f.where(), bad or "", construct=f.qualname, stmt="lock step")
+    if len(names) >= 3:
+        ctx.check(bad is None, "E3", "get_major_cn_prior: %s grow in lock step on all %d returning paths" % ("/".join(names), npaths), f.where(), bad or "", construct=f.qualname, stmt="lock step")
     # mu and log_pi are real-valued: no integer dtype on the way out (np.array(x, dtype=...) is the identity for TermFlow)
     _dtype_check(ctx, f)
     # MajorCopyNumberError exactly when major < minor
